@@ -207,7 +207,7 @@ def _kan_props(modules, rule, oracle_pass=None, oracle_project=None, nontrivial=
     if oracle_project:
         d['oracle_project'] = oracle_project
     d['trusted_base'] = d['trusted_base'] + ['Model/Kanata.lean as a transcription of src/kanata/mod.rs, key_repeat.rs, caps_word.rs, output_logic.rs (checked differentially on OS events with virtual-time stamps, the idle flag and the layout digest)']
-    d['assumptions'] = ['configurations using sequence mode, dynamic macros, zippychord, chords v2, overrides, live reload, cmd/clipboard/delay actions are outside the kanata-level model (answered unsupported, counted in the distribution)',
+    d['assumptions'] = ['configurations using sequence mode, dynamic macros, zippychord, chords v2, live reload, cmd/clipboard/delay actions are outside the kanata-level model (overrides are inside it since the table is serialised) (answered unsupported, counted in the distribution)',
                         'mouse-move distances (floating point) are not modelled: move events carry the direction only']
     return d
 
@@ -226,7 +226,7 @@ PROPS = {
         'virtual keys with marker outputs (also a layer, a macro, a one-shot, a tap-hold as virtual key action) operated by on-press/on-release fake-key actions (press, release, tap, toggle), direct handle_fakekey_action calls, hold-for-duration with durations {1,2,3,5,10,50} x re-activation gaps {0,1,D-1,D,D+1,D+5} x 1-3 activations, on-idle actions under the virtual-time processing loop with idle durations {5,20,100} and typing that restarts the idle clock, plus random unsettled mixes; non-trivial = output changed at least twice; oracle on the implementation trace: settled operation sequences leave the virtual key held/up as press/release/tap/toggle prescribe, hold-for-duration releases no earlier than D after an activation and ends released, on-idle fires exactly once, not before D ms of idleness',
         'C18o'),
     'C14': _kan_props(['KVerif.Props.C14'],
-        'simple single-layer configurations (plain keys, output chords, multi, use-defsrc) and whole-grammar configurations on 1-4 layers (tap-hold, tap-dance, one-shot, fork, switch, chords v1, unmod/unshift, virtual keys), keys held while OS repeat events are injected after any event; the key-output table recomputed by the model from the serialised actions is compared with the table the real parser built; non-trivial = a repeat event was injected while a key was down and the output changed at least twice; oracle on the implementation trace: at most one event per repeat, only for a key that is down at the OS, and on simple configurations a repeat for the last-listed output that is down',
+        'simple single-layer configurations (plain keys, output chords, multi, use-defsrc, reserved no-op keys; one in four with global overrides, whose table the harness reads from the configuration text) and whole-grammar configurations on 1-4 layers (tap-hold, tap-dance, one-shot, fork, switch, chords v1, unmod/unshift, virtual keys), keys held while OS repeat events are injected after any event; the key-output table recomputed by the model from the serialised actions is compared with the table the real parser built; non-trivial = a repeat event was injected while a key was down and the output changed at least twice; oracle on the implementation trace: at most one event per repeat, only for a key that is down at the OS, and on simple configurations a repeat for the last-listed output that is down',
         'C14o', None, lambda case, impl: ' rp ' in case and impl.count('@') >= 2),
     'C05': _lay_props(['KVerif.Props.C05'],
         'lone tap-hold key: 7 variants x T in {2,5,200} x concurrent on/off x tap-repress window {0,3} x hold durations {0,1,T-2..T+2}; exhaustive physically consistent schedules (<= N events) over the tap-hold key and two plain keys with gaps {0,1,T-1,T,T+1}; random interleavings of two tap-hold keys with plain keys incl. bursts; non-trivial = output changed at least twice; distinct = distinct case line. Oracle on the implementation trace: exactly one tap/hold/timeout marker effect per press, decision kind and tick for a lone key (closed form), plain keys output in press order',
